@@ -483,11 +483,54 @@ func rulesSortCmp(c *Ctx, r *Report) {
 	r.check(len(arith) == 0, "SORT-CMP", "regions.NewIndex", "comparator uses comparisons only", c.pos(f.Pos()), "the event order ("+sortName+") is decided by <, != on coordinates only: no arithmetic that could overflow for extreme coordinates", "the event comparator does integer arithmetic on coordinates ("+strings.Join(arith, "; ")+"): for coordinates more than MaxInt apart the difference wraps and events are swept out of order")
 	// eventLess: pos first, then end-before-start
 	el := c.role("regions.eventLess")
+	var elSubst map[ssa.Value]*Sym
+	if el == nil {
+		// the comparison written out in the less function of sort.Slice itself: events[i] and events[j] stand for the
+		// two events
+		for _, g := range c.stageFuncs(f) {
+			instrs(g, func(in ssa.Instruction) {
+				cl, ok := in.(*ssa.Call)
+				if !ok || !fnIs(cl.Call.StaticCallee(), "sort", "Slice") || len(cl.Call.Args) != 2 || el != nil {
+					return
+				}
+				mc, ok := cl.Call.Args[1].(*ssa.MakeClosure)
+				if !ok {
+					return
+				}
+				less, ok := mc.Fn.(*ssa.Function)
+				if !ok || len(less.Params) != 2 {
+					return
+				}
+				sub := map[ssa.Value]*Sym{}
+				instrs(less, func(in2 ssa.Instruction) {
+					ia, ok := in2.(*ssa.IndexAddr)
+					if !ok {
+						return
+					}
+					if ld, ok := ia.X.(*ssa.UnOp); ok {
+						if _, isFV := ld.X.(*ssa.FreeVar); isFV {
+							for k, p := range less.Params {
+								if ia.Index == ssa.Value(p) {
+									sub[ia] = leaf("param", fmt.Sprintf("P%d", k), ia)
+								}
+							}
+						}
+					}
+				})
+				if len(sub) >= 2 {
+					el, elSubst = less, sub
+				}
+			})
+		}
+	}
 	if el == nil {
 		r.undecided("SORT-CMP", "regions.eventLess", "anchor", "", "eventLess not found")
 		return
 	}
 	s := newSymb(el)
+	for k, v := range elSubst {
+		s.subst[k] = v
+	}
 	// returns keyed by guard
 	type ret struct {
 		guard, val string
